@@ -88,7 +88,8 @@ Record ekind := mkK { k_disp : dsrc;              (* display-name pairs the body
                       k_addhint : option bool;    (* hint()/repartition(): join hint? *)
                       k_join : bool;              (* result also carries the argument's remaining hints *)
                       k_setop : bool;             (* result is wrapped once more without joins *)
-                      k_retself : bool }.         (* the body returns its `self` (select() without columns) *)
+                      k_retself : bool;           (* the body returns its `self` (select() without columns) *)
+                      k_rebuilt : bool }.         (* the result is rebuilt from the receiver's own hint list (unpivot) *)
 Record resinfo := mkR { r_expr : exprv; r_dnm : dmap; r_seq : nat }.
 Record ecall := mkEC { ec_name : string; ec_kind : ekind; ec_recv : loc; ec_other : option loc; ec_res : option resinfo }.
 Definition call_of (ec : ecall) : call := mkC (ec_name ec) (ec_recv ec) (ec_other ec).
@@ -110,18 +111,34 @@ Definition wrapped_now (F : facts) (mi : minfo) (last : opk) : bool := existsb (
 Definition result_last (F : facts) (mi : minfo) (last : opk) : opk :=
   match mi_res mi with Some op => f_result_kind F op last | None => last end.
 
-(** writes on EXISTING cells; returns the heap, the receiver-side hint list of the result, the argument-side one *)
-Definition inplace (F : facts) (h : heap) (ec : ecall) (mi : minfo) : heap * list loc * list loc :=
+(** copy() under the fixed source: every hint object is copied too *)
+Fixpoint clone_all (h0 h : heap) (ls : list loc) : heap * list loc :=
+  match ls with
+  | [] => (h, [])
+  | l :: t => let (h1, n) := alloc h (cells h0 l) in let (h2, ns) := clone_all h0 h1 t in (h2, n :: ns)
+  end.
+
+(** the hint objects the body works on (receiver side, argument side) and whether it may rewrite them:
+    the very objects of the receiver / argument while copy() shares them (then only if the summary has the write),
+    fresh clones otherwise *)
+Definition prep (F : facts) (h : heap) (ec : ecall) (mi : minfo) : heap * list loc * list loc * bool * bool :=
+  let c := call_of ec in
+  let hs := hobjs h (ec_recv ec) in
+  let ho := match ec_other ec with Some ol => hobjs h ol | None => [] end in
+  if f_shares F then (h, hs, ho, open_write F h c mi RSelf WHintObj, open_write F h c mi ROther WHintObj)
+  else let (h1, hs') := clone_all h h hs in let (h2, ho') := clone_all h h1 ho in (h2, hs', ho', true, true).
+
+(** in-place writes; returns the heap, the receiver-side hint list of the result, the argument-side one *)
+Definition inplace (F : facts) (h hA : heap) (ec : ecall) (mi : minfo) (hs0 hso : list loc) (can_h can_o : bool)
+  : heap * list loc * list loc :=
   let c := call_of ec in
   let k := ec_kind ec in
   let o := get_df h (ec_recv ec) in
   let e := get_expr h (o_expr o) in
   let last := last_of h (ec_recv ec) in
   let wrapped := wrapped_now F mi last in
-  let hs0 := hobjs h (ec_recv ec) in
-  let can_h := open_write F h c mi RSelf WHintObj in
   let do1 := can_h && match k_resolve k with RNever => false | RIfWrapped => wrapped | RAlways => true end in
-  let (h1, cur1) := if do1 then resolve_on h e hs0 else (h, hs0) in
+  let (h1, cur1) := if do1 then resolve_on hA e hs0 else (hA, hs0) in
   let h2 := if open_write F h c mi RSelf WDisplay
             then set_cell h1 (o_dnm o) (VMap (map_update (get_map h1 (o_dnm o)) (pairs_of (k_disp k) (e_cols e))))
             else h1 in
@@ -134,10 +151,10 @@ Definition inplace (F : facts) (h : heap) (ec : ecall) (mi : minfo) : heap * lis
                                  else (h2, cur1)
                     | None => (h2, cur1)
                     end in
+  let cur3 := if k_rebuilt k then hs0 else cur3 in
   let cur4 := if k_setop k then filter (fun l => hv_join (get_hobj h3 l)) cur3 else cur3 in
   match ec_other ec with
-  | Some ol => let hso := hobjs h ol in
-               let (h5, ocur) := if k_other k && open_write F h c mi ROther WHintObj
+  | Some ol => let (h5, ocur) := if k_other k && can_o
                                  then resolve_on h3 (get_expr h (o_expr (get_df h ol))) hso else (h3, hso) in
                (h5, cur4, ocur)
   | None => (h3, cur4, [])
@@ -147,7 +164,8 @@ Definition run (F : facts) (h : heap) (ec : ecall) : heap * option loc :=
   match find_m F (ec_name ec) with
   | None => (h, None)
   | Some mi =>
-    let '(h5, cur4, ocur) := inplace F h ec mi in
+    let '(hA, hs0, hso, can_h, can_o) := prep F h ec mi in
+    let '(h5, cur4, ocur) := inplace F h hA ec mi hs0 hso can_h can_o in
     let h6 := mkH (cells h5) (next h5) (stmts h5 + if mi_exec mi then 1 else 0) in
     match ec_res ec with
     | None => (h6, None)
@@ -211,44 +229,45 @@ Proof.
   - rewrite Hr, Ht. exact Hx.
 Qed.
 
-Lemma inplace_frame : forall F h ec mi, let r := inplace F h ec mi in
-  next (fst (fst r)) = next h /\ stmts (fst (fst r)) = stmts h /\
-  (forall l, ~ In l (mw F h (call_of ec) mi) -> cells (fst (fst r)) l = cells h l) /\
-  incl (snd (fst r)) (hobjs h (ec_recv ec)) /\
-  (forall ol, ec_other ec = Some ol -> incl (snd r) (hobjs h ol)) /\
+Lemma inplace_frame : forall F h hA ec mi hs0 hso can_h can_o (W : loc -> Prop),
+  let c := call_of ec in let o := get_df h (ec_recv ec) in
+  (open_write F h c mi RSelf WDisplay = true -> W (o_dnm o)) ->
+  (open_write F h c mi RSelf WLast = true -> W (o_last o)) ->
+  (can_h = true -> forall l, In l hs0 -> W l) ->
+  (can_o = true -> forall l, In l hso -> W l) ->
+  let r := inplace F h hA ec mi hs0 hso can_h can_o in
+  next (fst (fst r)) = next hA /\ stmts (fst (fst r)) = stmts hA /\
+  (forall l, ~ W l -> cells (fst (fst r)) l = cells hA l) /\
+  incl (snd (fst r)) hs0 /\
+  (ec_other ec <> None -> incl (snd r) hso) /\
   (ec_other ec = None -> snd r = []).
 Proof.
-  intros F h ec mi. unfold inplace.
-  set (c := call_of ec). set (k := ec_kind ec). set (o := get_df h (ec_recv ec)). set (e := get_expr h (o_expr o)).
-  set (wrapped := wrapped_now F mi (last_of h (ec_recv ec))). set (hs0 := hobjs h (ec_recv ec)).
-  set (can_h := open_write F h c mi RSelf WHintObj).
-  assert (Hcan : can_h = true -> incl hs0 (mw F h c mi)).
-  { intros H. exact (open_write_mw F h c mi RSelf WHintObj (c_recv c) H eq_refl). }
+  intros F h hA ec mi hs0 hso can_h can_o W c o WD WL Hcan Hcano. unfold inplace. fold c. fold o.
+  set (k := ec_kind ec). set (e := get_expr h (o_expr o)).
+  set (wrapped := wrapped_now F mi (last_of h (ec_recv ec))).
   (* phase 1 *)
   set (do1 := can_h && _).
-  assert (P1 : exists h1 cur1, (if do1 then resolve_on h e hs0 else (h, hs0)) = (h1, cur1) /\
-            next h1 = next h /\ stmts h1 = stmts h /\ (forall l, ~ In l (mw F h c mi) -> cells h1 l = cells h l) /\ incl cur1 hs0).
+  assert (P1 : exists h1 cur1, (if do1 then resolve_on hA e hs0 else (hA, hs0)) = (h1, cur1) /\
+            next h1 = next hA /\ stmts h1 = stmts hA /\ (forall l, ~ W l -> cells h1 l = cells hA l) /\ incl cur1 hs0).
   { destruct do1 eqn:Ed.
-    - destruct (resolve_on h e hs0) as [h1 cur1] eqn:Er. exists h1, cur1. split; [reflexivity|].
-      pose proof (resolve_on_frame h e hs0) as R. rewrite Er in R. simpl in R. destruct R as [R1 [R2 [R3 R4]]].
+    - destruct (resolve_on hA e hs0) as [h1 cur1] eqn:Er. exists h1, cur1. split; [reflexivity|].
+      pose proof (resolve_on_frame hA e hs0) as R. rewrite Er in R. simpl in R. destruct R as [R1 [R2 [R3 R4]]].
       repeat split; auto. intros l Hl. apply R3. intros Hin. apply Hl. apply Hcan; [|exact Hin].
       unfold do1 in Ed. apply andb_true_iff in Ed. tauto.
-    - exists h, hs0. repeat split; auto. apply incl_refl. }
+    - exists hA, hs0. repeat split; auto. apply incl_refl. }
   destruct P1 as [h1 [cur1 [E1 [N1 [S1 [C1 I1]]]]]]. rewrite E1.
   (* phase 2 *)
   set (h2 := if open_write F h c mi RSelf WDisplay then _ else h1).
-  assert (P2 : next h2 = next h /\ stmts h2 = stmts h /\ (forall l, ~ In l (mw F h c mi) -> cells h2 l = cells h l)).
+  assert (P2 : next h2 = next hA /\ stmts h2 = stmts hA /\ (forall l, ~ W l -> cells h2 l = cells hA l)).
   { unfold h2. destruct (open_write F h c mi RSelf WDisplay) eqn:Ed; [|auto]. simpl. repeat split; auto.
-    intros l Hl. rewrite upd_other; [auto|]. intros E. apply Hl.
-    apply (open_write_mw F h c mi RSelf WDisplay (c_recv c) Ed eq_refl). subst l. simpl. left. reflexivity. }
+    intros l Hl. rewrite upd_other; [auto|]. intros E. apply Hl. subst l. apply WD. reflexivity. }
   destruct P2 as [N2 [S2 C2]].
   (* phase 2b: select() returned the receiver itself and the wrapper stamped last_op on it *)
   set (h2b := if k_retself k && negb wrapped && open_write F h c mi RSelf WLast then _ else h2).
-  assert (P2b : next h2b = next h /\ stmts h2b = stmts h /\ (forall l, ~ In l (mw F h c mi) -> cells h2b l = cells h l)).
+  assert (P2b : next h2b = next hA /\ stmts h2b = stmts hA /\ (forall l, ~ W l -> cells h2b l = cells hA l)).
   { unfold h2b. destruct (k_retself k && negb wrapped && open_write F h c mi RSelf WLast) eqn:Ed; [|auto].
     apply andb_true_iff in Ed. destruct Ed as [_ Ed]. simpl. repeat split; auto.
-    intros l Hl. rewrite upd_other; [auto|]. intros E. apply Hl.
-    apply (open_write_mw F h c mi RSelf WLast (c_recv c) Ed eq_refl). subst l. simpl. left. reflexivity. }
+    intros l Hl. rewrite upd_other; [auto|]. intros E. apply Hl. subst l. apply WL. exact Ed. }
   clearbody h2b. clear N2 S2 C2. destruct P2b as [N2 [S2 C2]]. clear h2. rename h2b into h2.
   (* phase 3 *)
   assert (P3 : exists h3 cur3,
@@ -256,7 +275,7 @@ Proof.
             | Some ns => if can_h then resolve_on (alias_on h2 (o_seq o) ns cur1) (if wrapped then mkE (e_cols e) (e_ctes e) [] else e) cur1
                          else (h2, cur1)
             | None => (h2, cur1) end = (h3, cur3) /\
-            next h3 = next h /\ stmts h3 = stmts h /\ (forall l, ~ In l (mw F h c mi) -> cells h3 l = cells h l) /\ incl cur3 hs0).
+            next h3 = next hA /\ stmts h3 = stmts hA /\ (forall l, ~ W l -> cells h3 l = cells hA l) /\ incl cur3 hs0).
   { destruct (k_alias k) as [ns|]; [|exists h2, cur1; repeat split; auto].
     destruct can_h eqn:Ec; [|exists h2, cur1; repeat split; auto].
     set (ha := alias_on h2 (o_seq o) ns cur1). set (e' := if wrapped then _ else e).
@@ -270,26 +289,26 @@ Proof.
       rewrite R3 by exact Hn. rewrite A3 by exact Hn. auto.
     - eapply incl_tran; eauto. }
   destruct P3 as [h3 [cur3 [E3 [N3 [S3 [C3 I3]]]]]]. rewrite E3.
-  set (cur4 := if k_setop k then _ else cur3).
+  set (cur3' := if k_rebuilt k then hs0 else cur3).
+  assert (I3' : incl cur3' hs0) by (unfold cur3'; destruct (k_rebuilt k); [apply incl_refl | exact I3]).
+  set (cur4 := if k_setop k then _ else cur3').
   assert (I4 : incl cur4 hs0).
-  { unfold cur4. destruct (k_setop k); [|exact I3]. intros x Hx. apply filter_In in Hx. apply I3. tauto. }
+  { unfold cur4. destruct (k_setop k); [|exact I3']. intros x Hx. apply filter_In in Hx. apply I3'. tauto. }
   destruct (ec_other ec) as [ol|] eqn:Eo.
-  - set (hso := hobjs h ol). set (g := k_other k && open_write F h c mi ROther WHintObj).
+  - set (g := k_other k && can_o).
     assert (P5 : exists h5 ocur, (if g then resolve_on h3 (get_expr h (o_expr (get_df h ol))) hso else (h3, hso)) = (h5, ocur) /\
-               next h5 = next h /\ stmts h5 = stmts h /\ (forall l, ~ In l (mw F h c mi) -> cells h5 l = cells h l) /\ incl ocur hso).
+               next h5 = next hA /\ stmts h5 = stmts hA /\ (forall l, ~ W l -> cells h5 l = cells hA l) /\ incl ocur hso).
     { destruct g eqn:Eg.
       - destruct (resolve_on h3 (get_expr h (o_expr (get_df h ol))) hso) as [h5 ocur] eqn:Er. exists h5, ocur.
         split; [reflexivity|].
         pose proof (resolve_on_frame h3 (get_expr h (o_expr (get_df h ol))) hso) as R. rewrite Er in R. simpl in R.
         destruct R as [R1 [R2 [R3 R4]]]. repeat split; try congruence; auto.
         intros l Hl. rewrite R3; [auto|]. intros Hin. apply Hl. unfold g in Eg. apply andb_true_iff in Eg.
-        apply (open_write_mw F h c mi ROther WHintObj ol (proj2 Eg)); [exact Eo | exact Hin].
+        apply Hcano; [exact (proj2 Eg) | exact Hin].
       - exists h3, hso. repeat split; auto. apply incl_refl. }
     destruct P5 as [h5 [ocur [E5 [N5 [S5 [C5 I5]]]]]]. rewrite E5. simpl.
-    repeat split; auto.
-    + intros ol' H. inversion H; subst. exact I5.
-    + intros H. discriminate H.
-  - simpl. repeat split; auto. intros ol H. discriminate H.
+    repeat split; auto. intros H. discriminate H.
+  - simpl. repeat split; auto. intros H. contradiction H. reflexivity.
 Qed.
 
 Lemma alloc_frame : forall h v, let r := alloc h v in
@@ -348,26 +367,93 @@ Proof.
   - intros l [].
 Qed.
 
+Lemma clone_all_frame : forall h0 ls h, let r := clone_all h0 h ls in
+  next h <= next (fst r) /\ stmts (fst r) = stmts h /\ (forall l, l < next h -> cells (fst r) l = cells h l) /\
+  (forall l, In l (snd r) -> next h <= l < next (fst r)).
+Proof.
+  intros h0 ls. induction ls as [|x t IH]; intros h; cbn [clone_all].
+  - cbn [fst snd]. split; [lia|]. split; [reflexivity|]. split; [auto|]. intros l [].
+  - pose proof (alloc_frame h (cells h0 x)) as AF. destruct (alloc h (cells h0 x)) as [h1 n]. cbn [fst snd] in AF.
+    destruct AF as [A1 [A2 [A3 [A4 A5]]]]. specialize (IH h1). destruct (clone_all h0 h1 t) as [h2 ns]. cbn [fst snd] in *.
+    destruct IH as [I1 [I2 [I3 I4]]]. split; [lia|]. split; [congruence|]. split.
+    + intros l Hl. rewrite I3 by lia. apply A5. lia.
+    + intros l [<-|H]; [lia | apply I4 in H; lia].
+Qed.
+
+Lemma prep_spec : forall F h ec mi, let c := call_of ec in
+  let ho := match ec_other ec with Some ol => hobjs h ol | None => [] end in
+  match prep F h ec mi with
+  | (hA, hs0, hso, can_h, can_o) =>
+      next h <= next hA /\ stmts hA = stmts h /\ (forall l, l < next h -> cells hA l = cells h l) /\
+      ((hs0 = hobjs h (ec_recv ec) /\ hso = ho /\ can_h = open_write F h c mi RSelf WHintObj /\
+        can_o = open_write F h c mi ROther WHintObj) \/
+       (forall l, In l (hs0 ++ hso) -> next h <= l < next hA))
+  end.
+Proof.
+  intros F h ec mi c ho. unfold prep. fold c. fold ho. destruct (f_shares F).
+  - repeat split; auto.
+  - pose proof (clone_all_frame h (hobjs h (ec_recv ec)) h) as C1. destruct (clone_all h h (hobjs h (ec_recv ec))) as [h1 hs'].
+    pose proof (clone_all_frame h ho h1) as C2. destruct (clone_all h h1 ho) as [h2 ho']. simpl in *.
+    destruct C1 as [A1 [A2 [A3 A4]]]. destruct C2 as [B1 [B2 [B3 B4]]]. repeat split.
+    + lia.
+    + congruence.
+    + intros l Hl. rewrite B3 by lia. apply A3. exact Hl.
+    + right. intros l Hl. apply in_app_or in Hl. destruct Hl as [Hl|Hl]; [apply A4 in Hl | apply B4 in Hl]; lia.
+Qed.
+
 (** the model's call is one of the behaviours [sstep] allows *)
 Theorem run_sstep : forall F h live ec, wf (h, live) -> In (ec_recv ec) live ->
   (forall o, ec_other ec = Some o -> In o live) -> find_m F (ec_name ec) <> None ->
   sstep F (h, live) (call_of ec) (fst (run F h ec), match snd (run F h ec) with Some r => r :: live | None => live end).
 Proof.
   intros F h live ec Hwf Hr Ho Hf. unfold run. destruct (find_m F (ec_name ec)) as [mi|] eqn:Ef; [|contradiction Hf; reflexivity].
-  pose proof (inplace_frame F h ec mi) as IF. destruct (inplace F h ec mi) as [[h5 cur4] ocur]. simpl in IF.
+  destruct Hwf as [HA [HD [HB HC]]].
+  pose proof (prep_spec F h ec mi) as PS. destruct (prep F h ec mi) as [[[[hA hs0] hso] can_h] can_o]. simpl in PS.
+  destruct PS as [NA [SA [CA Hmode]]].
+  set (c := call_of ec) in *.
+  set (W := fun l => In l (mw F h c mi) \/ next h <= l).
+  (* where the hint objects the body touches live *)
+  assert (Hhs : forall l, In l hs0 -> (In l (hobjs h (ec_recv ec)) /\ (can_h = true -> In l (mw F h c mi))) \/ next h <= l < next hA).
+  { intros l Hl. destruct Hmode as [[-> [_ [-> _]]]|Hfresh].
+    - left. split; [exact Hl|]. intros Hc. exact (open_write_mw F h c mi RSelf WHintObj (c_recv c) Hc eq_refl l Hl).
+    - right. apply Hfresh. apply in_or_app. left. exact Hl. }
+  assert (Hho : forall l, In l hso -> (exists ol, ec_other ec = Some ol /\ In l (hobjs h ol) /\ (can_o = true -> In l (mw F h c mi))) \/ next h <= l < next hA).
+  { intros l Hl. destruct Hmode as [[_ [-> [_ ->]]]|Hfresh].
+    - destruct (ec_other ec) as [ol|] eqn:Eo; [|destruct Hl]. left. exists ol. split; [reflexivity|]. split; [exact Hl|].
+      intros Hc. exact (open_write_mw F h c mi ROther WHintObj ol Hc Eo l Hl).
+    - right. apply Hfresh. apply in_or_app. right. exact Hl. }
+  pose proof (inplace_frame F h hA ec mi hs0 hso can_h can_o W) as IF. simpl in IF.
+  assert (IF' := IF
+     (fun Hd => or_introl (open_write_mw F h c mi RSelf WDisplay (c_recv c) Hd eq_refl _ (or_introl eq_refl)))
+     (fun Hd => or_introl (open_write_mw F h c mi RSelf WLast (c_recv c) Hd eq_refl _ (or_introl eq_refl)))).
+  clear IF.
+  assert (IF := IF'
+     (fun Hc l Hl => match Hhs l Hl with or_introl (conj _ Hm) => or_introl (Hm Hc) | or_intror Hfr => or_intror (proj1 Hfr) end)
+     (fun Hc l Hl => match Hho l Hl with
+                     | or_introl (ex_intro _ ol (conj _ (conj _ Hm))) => or_introl (Hm Hc)
+                     | or_intror Hfr => or_intror (proj1 Hfr) end)).
+  clear IF'.
+  destruct (inplace F h hA ec mi hs0 hso can_h can_o) as [[h5 cur4] ocur]. simpl in IF.
   destruct IF as [N5 [S5 [C5 [I4 [Io Ion]]]]].
   set (h6 := mkH (cells h5) (next h5) (stmts h5 + (if mi_exec mi then 1 else 0))).
-  assert (N6 : next h6 = next h) by exact N5.
-  assert (S6 : stmts h6 = stmts h + (if mi_exec mi then 1 else 0)) by (unfold h6; simpl; rewrite S5; reflexivity).
+  assert (N6 : next h6 = next hA) by exact N5.
+  assert (S6 : stmts h6 = stmts h + (if mi_exec mi then 1 else 0)) by (unfold h6; simpl; rewrite S5, SA; reflexivity).
   assert (C6 : forall l, cells h6 l = cells h5 l) by reflexivity.
   clearbody h6.
   assert (Hstep6 : forall h', next h6 <= next h' -> stmts h' = stmts h6 -> (forall l, l < next h6 -> cells h' l = cells h6 l) ->
-                   step F h (call_of ec) h').
+                   step F h c h').
   { intros h' Hn Hs Hc. exists mi. split; [exact Ef|]. split; [lia|]. split; [|split].
-    - intros l Hl Hm. rewrite Hc by lia. rewrite C6. apply C5. exact Hm.
+    - intros l Hl Hm. rewrite Hc by lia. rewrite C6. rewrite C5; [apply CA; exact Hl|].
+      unfold W. intros [Hx|Hx]; [exact (Hm Hx) | lia].
     - lia.
     - intros Hx. rewrite Hx in S6. lia. }
-  destruct Hwf as [HA [HD [HB HC]]].
+  (* every hint object of the result: shared with a source of the call, or fresh *)
+  assert (Hcur : forall l, In l cur4 -> In l (hobjs h (ec_recv ec)) \/ next h <= l < next hA).
+  { intros l Hl. destruct (Hhs l (I4 l Hl)) as [[H _]|H]; auto. }
+  assert (Hocur : forall l, In l ocur -> (exists ol, ec_other ec = Some ol /\ In l (hobjs h ol)) \/ next h <= l < next hA).
+  { intros l Hl. destruct (ec_other ec) as [ol|] eqn:Eo.
+    - assert (Hne : Some ol <> None) by discriminate. destruct (Hho l (Io Hne l Hl)) as [[ol' [E [H _]]]|H]; [left; exists ol'; auto | right; exact H].
+    - rewrite (Ion eq_refl) in Hl. destruct Hl. }
   destruct (ec_res ec) as [ri|].
   - set (o := get_df h (ec_recv ec)).
     assert (PX : exists h7 extra, match k_addhint (ec_kind ec) with
@@ -394,20 +480,18 @@ Proof.
       * simpl in H. intuition lia.
       * apply nodup6.
       * intros l Hl. unfold hl in Hl. apply in_app_or in Hl. destruct Hl as [Hl|Hl].
-        { right. exists (ec_recv ec). split; [simpl; auto | apply I4; exact Hl]. }
+        { destruct (Hcur l Hl) as [H|H]; [right; exists (ec_recv ec); split; [simpl; auto | exact H] | left; lia]. }
         apply in_app_or in Hl. destruct Hl as [Hl|Hl].
-        { destruct (k_join (ec_kind ec)); [|destruct Hl]. destruct (ec_other ec) as [ol|] eqn:Eo.
-          - right. exists ol. split; [unfold srcs_of, call_of; simpl; rewrite Eo; simpl; auto | apply (Io ol eq_refl); exact Hl].
-          - rewrite (Ion eq_refl) in Hl. destruct Hl. }
+        { destruct (k_join (ec_kind ec)); [|destruct Hl]. destruct (Hocur l Hl) as [[ol [Eo H]]|H]; [|left; lia].
+          right. exists ol. split; [unfold srcs_of, c, call_of; simpl; rewrite Eo; simpl; auto | exact H]. }
         left. apply X7 in Hl. lia.
       * intros l Hl Hown. assert (Hge : next h7 <= l) by (simpl in Hown; intuition lia).
         unfold hl in Hl. apply in_app_or in Hl. destruct Hl as [Hl|Hl].
-        { apply I4 in Hl. assert (l < next h) by (apply HA with (ec_recv ec); [exact Hr | apply in_or_app; right; exact Hl]). lia. }
+        { destruct (Hcur l Hl) as [H|H]; [|lia].
+          assert (l < next h) by (apply HA with (ec_recv ec); [exact Hr | apply in_or_app; right; exact H]). lia. }
         apply in_app_or in Hl. destruct Hl as [Hl|Hl].
-        { destruct (k_join (ec_kind ec)); [|destruct Hl]. destruct (ec_other ec) as [ol|] eqn:Eo.
-          - apply (Io ol eq_refl) in Hl.
-            assert (l < next h) by (apply HA with ol; [apply Ho; reflexivity | apply in_or_app; right; exact Hl]). lia.
-          - rewrite (Ion eq_refl) in Hl. destruct Hl. }
+        { destruct (k_join (ec_kind ec)); [|destruct Hl]. destruct (Hocur l Hl) as [[ol [Eo H]]|H]; [|lia].
+          assert (l < next h) by (apply HA with ol; [apply Ho; exact Eo | apply in_or_app; right; exact H]). lia. }
         apply X7 in Hl. lia.
   - unfold sstep. split; [exact Hr|]. split; [exact Ho|]. split; [|left; reflexivity].
     apply Hstep6; auto.
